@@ -182,3 +182,39 @@ def network(draw, nmin=2, nmax=8, max_branches=14, opens_shorts=False, min_sourc
         j += 1
     ref = node_names[draw(st.integers(0, n - 1))]
     return {'ref': ref, 'branches': branches}
+
+
+# ---------------------------------------------------------------------------------------------------------------
+# value-perturbed twins: same labels, same topology, same listing order - other numbers. Evaluating a case and its
+# twin in the same process exposes results that are cached or looked up by structure/name instead of by value.
+
+def _scale(v, f):
+    if isinstance(v, list):
+        return [float(f'{x * f:.6g}') for x in v]
+    if isinstance(v, bool) or not isinstance(v, (int, float)):
+        return v
+    return float(f'{v * f:.6g}')
+
+
+def twin_network(net):
+    import copy
+    out = copy.deepcopy(net)
+    fs = [2.5, 0.4, 3.0, 0.7, 1.6]
+    for k, b in enumerate(out['branches']):
+        for key in list(b['p']):
+            if key in ('V_ref', 'I_ref'):
+                continue
+            b['p'][key] = _scale(b['p'][key], fs[k % len(fs)])
+    return out
+
+
+def twin_circuit(spec):
+    import copy
+    out = copy.deepcopy(spec)
+    fs = [2.5, 0.4, 3.0, 0.7, 1.6]
+    for k, c in enumerate(out['components']):
+        for key in list(c.get('args', {})):
+            if key in ('w', 'phi', 'wavetype', 'V_ref', 'deg', 'sin'):
+                continue
+            c['args'][key] = _scale(c['args'][key], fs[k % len(fs)])
+    return out
